@@ -125,6 +125,10 @@ def build_programs(R, rng, tier):
     ]
     for s in extras:
         progs.append({"src": s, "include": ["B001"], "kind": "extra", "expect": None})
+    # one statement importing two blacklisted modules: each is a rule x spelling of the statement
+    for src, ids in (("import telnetlib, ftplib\n", ["B401", "B402"]), ("import pickle, subprocess as sp\n", ["B403", "B404"]),
+                     ("from xml import sax, dom\n", ["B406", "B408"])):
+        progs.append({"src": src, "include": ["B001"], "kind": "multi_import", "rules": ids, "expect": "all"})
     return progs
 
 
@@ -139,6 +143,12 @@ def oracle(p, o):
                             "with that rule's ID/severity/HIGH confidence on line %d"
                             % (p["kind"], p["q"], p["rule"], p["spelling"], p["ctx"], p["line"]),
                     "input": p["src"], "observed": bl_find, "signature": sig_missing(p)}
+    elif p["expect"] == "all":
+        got = {r["test_id"] for r in bl_find if r["lineno"] == 1}
+        miss = [i for i in p["rules"] if i not in got]
+        if miss:
+            return {"what": "one import statement binding two blacklisted modules: rule(s) %s not reported (reported: %s)" % (miss, sorted(got)),
+                    "input": p["src"], "observed": bl_find, "signature": "blacklist-one-finding-per-node"}
     elif p["expect"] is False:
         if p["kind"] == "nearmiss":
             bl_find = [r for r in bl_find if r["lineno"] == p["line"]]
